@@ -35,6 +35,7 @@ typedef enum NLW2_SOLReadResultCode NLW2_SOLReadResultCode;
 #define assert(x) __CPROVER_assert(x, "assert(" #x ") of the source holds")
 /* ghost description of the text buffer a cursor points into */
 char *g_base; size_t g_n;
+#define VP_INIT do { vp_one = 1; g_big = 0; g_big_size = 0; g_big_hi = 0; g_nul_ptr = 0; } while (0)
 #define IN_BUF(p) (__CPROVER_same_object((p), g_base) && __CPROVER_POINTER_OFFSET(p) < g_n)
 #define BUF_OK (g_n >= 1 && g_n <= 100000 && __CPROVER_OBJECT_SIZE(g_base) == g_n && __CPROVER_POINTER_OFFSET(g_base) == 0 && g_base[g_n - 1] == 0)
 static void vp_mkbuf(void) {
@@ -54,30 +55,35 @@ def decstring_fn(contract=True):
 
 def h_decstring():
     parts = [PRE, decstring_fn(), '''
-void harness(void) { vp_one = 1; vp_mkbuf(); size_t off = nondet_size_t(); __CPROVER_assume(off < g_n); double v;
+void harness(void) { VP_INIT; vp_mkbuf(); size_t off = nondet_size_t(); __CPROVER_assume(off < g_n); double v;
   decstring(g_base + off, &v); VP_REACH("normal return"); }
 ''']
     return Harness('C14.decstring', 'C14', parts, enforce='decstring', stubs=['strtod'])
 
 
-LGET_CONTRACT = ('__CPROVER_requires(BUF_OK && __CPROVER_w_ok(sp, sizeof(char *)) && __CPROVER_w_ok(Lp, sizeof(int)) && IN_BUF(*sp)) '
+LGET_CONTRACT = ('__CPROVER_requires(__CPROVER_w_ok(sp, sizeof(char *)) && __CPROVER_w_ok(Lp, sizeof(int)) && VP_NUL_AT_OR_AFTER(*sp)) '
                  '__CPROVER_ensures(__CPROVER_return_value == 0 || __CPROVER_return_value == 1) '
-                 '__CPROVER_ensures(IN_BUF(*sp)) '
+                 '__CPROVER_ensures(VP_NUL_AT_OR_AFTER(*sp)) '
                  '__CPROVER_ensures(__CPROVER_return_value == 0 ==> *Lp >= 0) '
                  '__CPROVER_assigns(*sp, *Lp)')
+LGET_DECL = 'int Lget(char **sp, int *Lp)\n' + LGET_CONTRACT + ';\n'
 
 
 def lget_fn(contract=True, loops=True):
+    inv = 'VP_NUL_AT_OR_AFTER(s)'
+    dec = '__CPROVER_decreases(__CPROVER_POINTER_OFFSET(g_nul_ptr) - __CPROVER_POINTER_OFFSET(s))'
     return Fn(HPP, r'^Lget\(char \*\*sp, int \*Lp\)', 'int Lget(char **sp, int *Lp)',
               contract=LGET_CONTRACT if contract else '',
-              loops={0: '__CPROVER_assigns(s) __CPROVER_loop_invariant(IN_BUF(s)) __CPROVER_decreases(g_n - __CPROVER_POINTER_OFFSET(s))',
-                     1: '__CPROVER_assigns(s, c, L) __CPROVER_loop_invariant(IN_BUF(s) && L >= 0) __CPROVER_decreases(g_n - __CPROVER_POINTER_OFFSET(s))'} if loops else None,
+              loops={0: '__CPROVER_assigns(s) __CPROVER_loop_invariant(%s) %s' % (inv, dec),
+                     1: '__CPROVER_assigns(s, c, L) __CPROVER_loop_invariant(%s && L >= 0) %s' % (inv, dec)} if loops else None,
               label='mp::Lget', nmatches=1)
 
 
 def h_lget():
     parts = [PRE, lget_fn(), '''
-void harness(void) { vp_one = 1; vp_mkbuf(); size_t off = nondet_size_t(); __CPROVER_assume(off < g_n);
+void harness(void) { VP_INIT; vp_mkbuf(); size_t off = nondet_size_t(), z = nondet_size_t();
+  __CPROVER_assume(off <= z && z < g_n && g_base[z] == 0);
+  g_nul_ptr = g_base + z;               /* some NUL at or after the cursor: all the function may rely on */
   char *s = g_base + off; int L;
   Lget(&s, &L); VP_REACH("normal return"); }
 ''']
@@ -95,7 +101,7 @@ ERR_OK = '(__CPROVER_w_ok(%s, 512) && __CPROVER_OBJECT_SIZE(%s) == 512 && __CPRO
 READ_CONTRACT = ('__CPROVER_requires(' + ERR_OK % ('err', 'err', 'err') + ' && __CPROVER_w_ok(v_p, sizeof(*v_p))) '
                  '__CPROVER_ensures(__CPROVER_return_value == NLW2_SOLRead_OK || __CPROVER_return_value == NLW2_SOLRead_Early_EOF '
                  '|| __CPROVER_return_value == NLW2_SOLRead_Bad_Line) '
-                 '__CPROVER_assigns(*v_p, __CPROVER_object_whole(err))')
+                 '__CPROVER_assigns(*v_p, __CPROVER_object_whole(err), g_nul_ptr)')
 
 KINDS = {   # kind -> (C value type, Read function, C++ instantiation)
     'double': ('double', 'Read_double', 'double'),
@@ -128,7 +134,7 @@ def read_fn(kind, contract=True):
 def h_read(kind):
     vt, name, inst = KINDS[kind]
     parts = [PRE, ENUM, PAIRS, decstring_fn(False), read_fn(kind), '''
-void harness(void) { vp_one = 1; FILE f; char *err = vp_malloc(512); %s v;
+void harness(void) { VP_INIT; FILE f; char *err = vp_malloc(512); %s v;
   %s(&f, nondet_int(), &v, err); VP_REACH("normal return"); }
 ''' % (vt, name)]
     return Harness('C14.Read.' + kind, 'C14', parts, enforce=name, stubs=['fgets', 'fread', 'strtod', 'strtol'])
@@ -145,7 +151,7 @@ def readnext_fn(kind, contract=True):
     vt, rd, inst = KINDS[kind]
     c = ('__CPROVER_requires(VR_OK(vr) && vr->n_ >= 1) '
          '__CPROVER_ensures((vr->rr_ == NLW2_SOLRead_OK && vr->n_ == __CPROVER_old(vr->n_) - 1) || (vr->rr_ != NLW2_SOLRead_OK && vr->n_ == 0)) '
-         '__CPROVER_assigns(vr->n_, vr->rr_, __CPROVER_object_whole(vr->err_msg_))')
+         '__CPROVER_assigns(vr->n_, vr->rr_, __CPROVER_object_whole(vr->err_msg_), g_nul_ptr)')
     return Fn(HPP, r'Value VecReader<Value>::ReadNext\(\)', '%s ReadNext_%s(VecReader *vr)' % (vt, kind),
               contract=c if contract else '',
               subst=[(r'Value v;', '%s v;' % vt, 1), (r'Read\(f_, binary_, v, err_msg_\)', '%s(vr->f_, vr->binary_, &v, vr->err_msg_)' % rd, 1),
@@ -155,7 +161,7 @@ def readnext_fn(kind, contract=True):
 
 def h_readnext(kind):
     parts = [PRE, ENUM, PAIRS, VR, decstring_fn(False), read_fn(kind, False), readnext_fn(kind), '''
-void harness(void) { vp_one = 1; FILE f; VecReader vr; vr.f_ = &f; vr.binary_ = nondet_int(); vr.n_ = nondet_int();
+void harness(void) { VP_INIT; FILE f; VecReader vr; vr.f_ = &f; vr.binary_ = nondet_int(); vr.n_ = nondet_int();
   vr.rr_ = NLW2_SOLRead_OK; vr.err_msg_ = vp_malloc(512);
   ReadNext_%s(&vr); VP_REACH("normal return"); }
 ''' % kind]
@@ -174,17 +180,16 @@ def structs():
         '''
 typedef struct SufHead SufHead; typedef struct SufRead SufRead;
 /* std::vector<char>::resize on an empty vector: a zero-filled block of exactly n bytes.  DFCC forbids allocation
-   inside loops that carry contracts, so the block is a pool allocated once by the harness with an ARBITRARY size;
-   the request is assumed to be exactly that size (every request size is covered by some pool size). */
-char *g_xp_pool; size_t g_xp_pool_size;
+   inside loops that carry contracts, so the block is the pool g_big allocated once by the harness with an ARBITRARY
+   size; the request is assumed to be exactly that size (every request size is covered by some pool size). */
 static void vp_mkpool(void) {
-  g_xp_pool_size = nondet_size_t(); __CPROVER_assume(g_xp_pool_size >= 1 && g_xp_pool_size <= (size_t)1 << 40);
-  g_xp_pool = vp_malloc(g_xp_pool_size);
+  g_big_size = nondet_size_t(); __CPROVER_assume(g_big_size >= 1 && g_big_size <= (size_t)1 << 40);
+  g_big = vp_malloc(g_big_size); g_big_hi = 0;
 }
 static void vp_xp_resize(SufRead *sr, size_t n) {
-  __CPROVER_assume(n == g_xp_pool_size);
-  sr->xp_data = g_xp_pool; sr->xp_size = n;
-  __CPROVER_array_set(g_xp_pool, 0);
+  __CPROVER_assume(n == g_big_size);
+  sr->xp_data = g_big; sr->xp_size = n;
+  g_big_hi = 0;                       /* fresh zero-filled block: nothing written yet */
 }
 int i;     /* SOLReader2::i */
 ''']
@@ -194,7 +199,7 @@ XP_SUBST = [(r'sr->xp\.resize\(', 'vp_xp_resize(sr, ', 1), (r'sr->xp\.data\(\)',
 SUFHEAD_POST = ('(sr->h.kind >= 0 && sr->h.kind <= 15 && sr->h.n >= 0 && sr->h.namelen >= 2 && sr->h.tablen >= 0 && '
                 '(sr->h.tablen > 0 ==> (sr->tablines >= 1 && (long)sr->tablines <= (long)sr->h.tablen + 1)) && '
                 'sr->xp_size == (size_t)((long)sr->h.tablen + 2 * (long)sr->h.namelen + 6) && '
-                '__CPROVER_OBJECT_SIZE(sr->xp_data) == sr->xp_size && __CPROVER_POINTER_OFFSET(sr->xp_data) == 0 && '
+                '__CPROVER_OBJECT_SIZE(sr->xp_data) == sr->xp_size && __CPROVER_POINTER_OFFSET(sr->xp_data) == 0 && sr->xp_data == g_big && g_big_hi == 0 && '
                 'sr->name == sr->xp_data && sr->table == sr->xp_data + sr->h.namelen && sr->tabname == sr->xp_data + sr->h.namelen + sr->h.tablen)')
 
 
@@ -203,13 +208,13 @@ def sufheadcheck_fn(contract=True):
               contract=('__CPROVER_requires(__CPROVER_w_ok(sr, sizeof(*sr))) '
                         '__CPROVER_ensures(__CPROVER_return_value == 0 || __CPROVER_return_value == 1) '
                         '__CPROVER_ensures(__CPROVER_return_value == 0 ==> %s) '
-                        '__CPROVER_assigns(i, sr->name, sr->table, sr->tabname, sr->xp_data, sr->xp_size, __CPROVER_object_whole(g_xp_pool))' % SUFHEAD_POST) if contract else '',
+                        '__CPROVER_assigns(i, sr->name, sr->table, sr->tabname, sr->xp_data, sr->xp_size, g_big_hi, __CPROVER_object_whole(g_big))' % SUFHEAD_POST) if contract else '',
               subst=XP_SUBST, label='mp::SOLReader2::sufheadcheck', nmatches=1)
 
 
 def h_sufheadcheck():
     parts = [PRE, ENUM] + structs() + [sufheadcheck_fn(), '''
-void harness(void) { vp_one = 1; vp_mkpool(); SufRead SR;
+void harness(void) { VP_INIT; vp_mkpool(); SufRead SR;
   SR.h.kind = nondet_int(); SR.h.n = nondet_int(); SR.h.namelen = nondet_int(); SR.h.tablen = nondet_int(); SR.tablines = nondet_int();
   sufheadcheck(&SR); VP_REACH("normal return"); }
 ''']
@@ -259,7 +264,7 @@ def checkreader_fn(contract=True):
 
 def h_checkreader():
     parts = [PRE, ENUM, VR, MEMBERS] + report_fns() + [checkreader_fn(), '''
-void harness(void) { vp_one = 1; VecReader vr; vr.n_ = nondet_int(); vr.rr_ = nondet_int(); vr.err_msg_ = vp_malloc(512);
+void harness(void) { VP_INIT; VecReader vr; vr.n_ = nondet_int(); vr.rr_ = nondet_int(); vr.err_msg_ = vp_malloc(512);
   __CPROVER_assume(vr.rr_ >= -1 && vr.rr_ <= 7);
   NLW2_SOLReadResultCode rr = nondet_int();
   CheckReader(&vr, &rr); VP_REACH("normal return"); }
@@ -298,7 +303,7 @@ SUFINFO = '''
 void vp_SuffixInfo(SufRead *sr) {
   __CPROVER_assert(__CPROVER_same_object(sr->name, sr->xp_data) && __CPROVER_same_object(sr->table, sr->xp_data)
                    && __CPROVER_POINTER_OFFSET(sr->table) < sr->xp_size, "suffix name and table point into the suffix buffer");
-  __CPROVER_assert(sr->xp_data[sr->xp_size - 1] == 0, "suffix buffer still ends in its zero sentinel (name/table strings end inside it)");
+  __CPROVER_assert(sr->xp_data == g_big && g_big_hi < sr->xp_size, "the zero byte at the end of the suffix buffer was never overwritten (name/table strings end inside it)");
 }
 '''
 
@@ -318,50 +323,57 @@ CODES = ('(__CPROVER_return_value == NLW2_SOLRead_OK || __CPROVER_return_value =
 XP_INV = ('__CPROVER_same_object(s, SR.xp_data) && __CPROVER_OBJECT_SIZE(SR.xp_data) == SR.xp_size && '
           '__CPROVER_POINTER_OFFSET(SR.xp_data) == 0 && '
           '__CPROVER_POINTER_OFFSET(s) >= (size_t)SR.h.namelen && __CPROVER_POINTER_OFFSET(s) < (size_t)SR.h.namelen + (size_t)SR.h.tablen && '
-          'se == SR.xp_data + SR.h.namelen + SR.h.tablen && SR.xp_data[SR.xp_size - 1] == 0 && '
+          'se == SR.xp_data + SR.h.namelen + SR.h.tablen && SR.xp_data == g_big && g_big_hi <= (size_t)SR.h.namelen + (size_t)SR.h.tablen && '
           'SR.xp_size == (size_t)SR.h.tablen + 2 * (size_t)SR.h.namelen + 6 && SR.h.namelen >= 2 && SR.h.tablen >= 1')
 
 
 def gsufread_fn(contract=True):
     c = ('__CPROVER_requires(__CPROVER_r_ok(f, sizeof(FILE))) __CPROVER_ensures(' + CODES + ') '
-         '__CPROVER_assigns(readresult_, i, g_serror_calls, __CPROVER_object_whole(g_xp_pool))')
+         '__CPROVER_assigns(readresult_, i, g_serror_calls, g_nul_ptr, g_big_hi, __CPROVER_object_whole(g_big))')
     return Fn(HPP, r'NLW2_SOLReadResultCode SOLReader2<SOLHandler>::gsufread\(FILE\* f\)', 'NLW2_SOLReadResultCode gsufread(FILE *f)',
-              contract=c if contract else '', subst=SUF_SUBST,
-              loops={0: '__CPROVER_assigns(s, se, L, __CPROVER_object_whole(buf), readresult_, i, g_serror_calls, __CPROVER_object_whole(g_xp_pool)) '
-                        '__CPROVER_loop_invariant(1)',
-                     1: '__CPROVER_assigns(i, s, __CPROVER_object_whole(SR.xp_data)) '
+              contract=c if contract else '',
+              subst=SUF_SUBST + [(r'strcpy\(SR\.name, buf\)', 'vp_strcpy_big(SR.name, buf)', 1),
+                                 (r'fgets\(s, se-s, f\)', 'vp_fgets_big(s, se-s, f)', 1),
+                                 (r'memcpy\(s, buf, L\)', 'vp_memcpy_big(s, buf, L)', 1),
+                                 (r'buf\[SR\.h\.namelen-1\] = 0;',
+                                  'buf[SR.h.namelen-1] = 0; /* ghost */ g_nul_ptr = &buf[SR.h.namelen-1];', 1)],
+              one_iteration=0,    # R21: outer `while (fgets(...))`: invariant true, first statement of the function
+              loops={0: '__CPROVER_assigns(i, s, g_nul_ptr, g_big_hi, __CPROVER_object_whole(g_big)) '
                         '__CPROVER_loop_invariant(i >= 1 && ' + XP_INV + ') __CPROVER_decreases((long)SR.tablines - i)'},
               label='mp::SOLReader2::gsufread', nmatches=1)
 
 
 def suffix_parts():
-    return [PRE, ENUM, VR, MEMBERS] + structs() + report_fns() + [HANDLER, SUFINFO, checkreader_fn(False), lget_fn(False, loops=True),
+    return [PRE, ENUM, VR, MEMBERS] + structs() + report_fns() + [HANDLER, SUFINFO, checkreader_fn(False), LGET_DECL,
                                                                     sufheadcheck_fn(False)]
 
 
 def h_gsufread():
     parts = suffix_parts() + [gsufread_fn(), '''
-void harness(void) { vp_one = 1; vp_mkpool(); FILE f; binary = 0; readresult_ = nondet_int();
+void harness(void) { VP_INIT; vp_mkpool(); FILE f; binary = 0; readresult_ = nondet_int(); i = nondet_int();
+  g_nul_ptr = nondet_ptr(); g_big_hi = nondet_size_t();     /* arbitrary state at the loop head (R21) */
   gsufread(&f); VP_REACH("normal return"); }
 ''']
-    return Harness('C14.gsufread', 'C14', parts, enforce='gsufread', loop_contracts=True, expect_loop_obligations=2,
+    return Harness('C14.gsufread', 'C14', parts, enforce='gsufread', loop_contracts=True, expect_loop_obligations=1,
+                   replace=['Lget', 'vp_strlen'],
                    timeout=900,
                    stubs=['fgets', 'strlen', 'strcpy', 'memcpy', 'strncmp', 'SuffixInfo ctor (sink)', 'SOLHandler::OnIntSuffix/OnDblSuffix (reads all, some or none)'],
-                   note='Lget is used with its loop contracts re-checked in place (its buffer is the 512-byte line)')
+                   note='modular: Lget by its contract (proved by C14.Lget); strlen/strcpy by contract stubs')
 
 
 def bsufread_fn(contract=True):
     c = ('__CPROVER_requires(__CPROVER_r_ok(f, sizeof(FILE))) __CPROVER_ensures(' + CODES + ') '
-         '__CPROVER_assigns(readresult_, i, g_serror_calls, __CPROVER_object_whole(g_xp_pool))')
+         '__CPROVER_assigns(readresult_, i, g_serror_calls, g_big_hi, __CPROVER_object_whole(g_big))')
     return Fn(HPP, r'NLW2_SOLReadResultCode SOLReader2<SOLHandler>::bsufread\(FILE\* f\)', 'NLW2_SOLReadResultCode bsufread(FILE *f)',
-              contract=c if contract else '', subst=SUF_SUBST,
-              loops={0: '__CPROVER_assigns(L, L1, readresult_, i, g_serror_calls, __CPROVER_object_whole(g_xp_pool)) __CPROVER_loop_invariant(1)'},
+              contract=c if contract else '',
+              subst=SUF_SUBST + [(r'fread\(SR\.name, ', 'vp_fread_big(SR.name, ', 1), (r'fread\(SR\.table, ', 'vp_fread_big(SR.table, ', 1)],
+              loops={0: '__CPROVER_assigns(L, L1, readresult_, i, g_serror_calls, g_big_hi, __CPROVER_object_whole(g_big)) __CPROVER_loop_invariant(1)'},
               label='mp::SOLReader2::bsufread', nmatches=1)
 
 
 def h_bsufread():
     parts = suffix_parts() + [bsufread_fn(), '''
-void harness(void) { vp_one = 1; vp_mkpool(); FILE f; binary = 1; readresult_ = nondet_int();
+void harness(void) { VP_INIT; vp_mkpool(); FILE f; binary = 1; readresult_ = nondet_int();
   bsufread(&f); VP_REACH("normal return"); }
 ''']
     return Harness('C14.bsufread', 'C14', parts, enforce='bsufread', loop_contracts=True, expect_loop_obligations=1, timeout=600,
